@@ -54,12 +54,17 @@ SPEC = {
     # statement (`agree`: all processes observed the same value, proved equivalent to the pairwise
     # quantifier in c05_agree_iff_pairwise), so a disagreement is a failing input.  `pouindex`, `vtables`
     # and `strtab` compare the decoded container of the parent with the proved models of PouIdMap,
-    # method_table_for and StringInterner.
+    # method_table_for and StringInterner.  `xrepub` (publishing the same variable state again must give the
+    # same %Q/%M images) and `xconst` (image bytes bound only to never-assigned variables must not change from
+    # cycle to cycle) are the same statement inside ONE process, across flushes / cycles.
     "disagreement_is_violation": True,
     "rule": "case = generated multi-file ST project (enums, structs, array aliases, functions, function blocks with "
             "methods/inheritance/standard FBs, classes, interfaces, plain/direct-addressed globals, 1-6 programs, "
             "CONFIGURATION with 0-3 tasks, 1 in 5 three times larger, 1 in 16 deliberately ill-typed) x generated trace "
-            "(dt incl. 0 and sub-ms, BOOL/DINT inputs, direct inputs, 1 in 6 with a warm/cold restart); every case is "
+            "(dt incl. 0 and sub-ms, BOOL/DINT inputs, direct inputs, 1 in 6 with a warm/cold restart); projects declare "
+            ">= 2 initialised VAR_GLOBAL RETAIN variables, scalars of 15 elementary types, subrange/alias/REF_TO types, and "
+            "groups of overlapping %Q/%M bindings (X, B, W, D, L starting in the same byte or overlapping it; globals and "
+            "program variables; some assigned every cycle with non-commuting values, some never assigned); every case is "
             "compiled and run twice in the parent (two threads) and once in each of >= 4 freshly spawned child processes; "
             "non-trivial = the container interned >= 24 strings, has >= 6 POUs and >= 8 cycles ran in every process; "
             "distinct = by hash of the case's operation lines",
@@ -109,14 +114,17 @@ MANIFEST = {
                   "(c05_front_end_std_hash_free). Each run compiles generated projects in the parent (twice) and in >= 4 fresh "
                   "OS processes (different RandomState, ASLR, heap pre-fill, thread, environment size, wall-clock pacing) and "
                   "compares container bytes; runs the same input/clock trace in each and compares, per cycle, all globals, "
-                  "retained values, instances, I/O images, direct addresses, faults, overrun counters and runtime events; and "
+                  "retained values, instances, I/O images, direct addresses, faults, overrun counters and runtime events; checks "
+                  "inside one process that re-publishing a cycle's state and never-assigned overlapping bindings give the same "
+                  "%Q/%M image bytes at every cycle; and "
                   "compares the decoded POU index, method tables and string table with the proved models.",
     "level_note": "Partial by design: the encoder and the evaluator as a whole are not modelled; their determinism is argued "
                   "from the proved lookup-only lemma + the scanned table and is tested across processes. The scan is "
                   "syntactic: receivers are resolved by name, declared type and constructor; a field access on an untyped "
                   "receiver whose field name is shared with a non-hash struct is listed as ambiguous (4 rows, all in "
-                  "order-free contexts; in an iterating context it fails closed); macros and trait-object indirection are not "
-                  "followed. FxHashMap iteration is trusted to be seed-free (a pointer-keyed Fx map would be layout "
+                  "order-free contexts; in an iterating context it fails closed); every HashMap/HashSet token of a scanned file "
+                  "that does not belong to a recognised declaration is listed as `unknown` (fails closed); macros and "
+                  "trait-object indirection are not followed. FxHashMap iteration is trusted to be seed-free (a pointer-keyed Fx map would be layout "
                   "dependent; only the cross-process runs would see that). Wall-clock independence is argued from "
                   "EvalContext.now being the only time source (execution_deadline = None) and tested by pacing some children. "
                   "Memory-layout independence is tested only through ASLR, different heap pre-fill and thread stacks. "
